@@ -774,8 +774,8 @@ def incr(
     else:
         cur_vinfo = old_vinfo._replace(**cur_cinfo._asdict())
 
-    has_tag_part = cur_vinfo.tag != "final"
-    if tag_num and not tag and not has_tag_part:
+    new_tag = tag if tag else cur_vinfo.tag
+    if tag_num and new_tag == "final":
         logger.error("Invalid arguments, non-final --tag=<tag> is needed to use --tag-num.")
         return None
 
